@@ -7,6 +7,7 @@ use std::marker::PhantomData;
 use std::sync::Arc;
 
 use p2panda_auth::Access;
+use p2panda_auth::group::GroupAction;
 use p2panda_auth::traits::{Conditions, Operation};
 use p2panda_core::traits::{Digest, Provenance};
 use p2panda_core::{Hash, SigningKey, VerifyingKey};
@@ -245,6 +246,15 @@ where
                     .map_err(ManagerError::IdentityManager)?;
 
                 (None, None, vec![event])
+            }
+            // Changing the access level of a member is not implemented yet (there are no events
+            // for it). A remote peer can still send us such a message: report it as an error
+            // instead of panicking.
+            SpacesArgs::Auth {
+                group_action: GroupAction::Promote { .. } | GroupAction::Demote { .. },
+                ..
+            } => {
+                return Err(ManagerError::UnsupportedMessage(message.hash()));
             }
             SpacesArgs::Auth { .. } => {
                 let event = Group::process(self.clone(), &SpacesMessage::auth(message))
@@ -506,6 +516,13 @@ where
             };
 
             match message.borrow() {
+                // See `process`: access level changes are not supported yet.
+                SpacesArgs::Auth {
+                    group_action: GroupAction::Promote { .. } | GroupAction::Demote { .. },
+                    ..
+                } => {
+                    return Err(ManagerError::UnsupportedMessage(auth_message_id));
+                }
                 SpacesArgs::Auth { .. } => SpacesMessage::auth(&message),
                 _ => {
                     return Err(ManagerError::IncorrectMessageVariant(auth_message_id));
